@@ -3,13 +3,16 @@
 // Contracts for the deductive verification in /verif (comment-only; compiled code is unaffected).
 package lister
 
+// every collaborator the constructor checks for is present (object invariant: proved for the value the constructor returns)
+//@ spec wiredListerHandler(h *Handler) bool = h != nil && h.lister != nil
+
 // the name shown for an account: "wallet/account" when the account knows its wallet
 //@ spec shown(a any) string = if implements(a, "e2wtypes.AccountWalletProvider") then nameOf(walletOf(a)) + "/" + nameOf(a) else nameOf(a)
 
 // Every account in the response is one of the accounts the lister returned in this request, with its own name and
 // public key; nothing is returned unless the lister succeeded.
 //@ func (*Handler).ListAccounts
-//@ requires h != nil
+//@ requires wiredListerHandler(h)
 //@ requires [unlocked] !prelocked && (forall k [48]byte :: !held[k])
 //@ modifies checkedset, deniedset, tokroot, db, held, prelocked, listing
 //@ ensures [nil] req == nil ==> result0 == nil && result1 != nil
